@@ -82,30 +82,43 @@ Definition is_hexdigit (c : N) : bool :=
   is_digit c || ((97 <=? c) && (c <=? 102)) || ((65 <=? c) && (c <=? 70)).
 Definition is_octdigit (c : N) : bool := (48 <=? c) && (c <=? 55).
 
-(* the text matched by HexUintLiteral / OctalUintLiteral / DecimalUintLiteral, in that order *)
+(* HexUintLiteral <- "0x" [0-9a-fA-F]+      OctalUintLiteral <- '0' [0-7]+      DecimalUintLiteral <- [0-9]+
+   each returns the matched text and the rest *)
+Definition lit_hex (s : list N) : option (list N * list N) :=
+  match s with
+  | c1 :: c2 :: r =>
+      if (c1 =? 48) && (c2 =? 120) then
+        match span is_hexdigit r with
+        | ([], _) => None
+        | (ds, r') => Some (c1 :: c2 :: ds, r')
+        end
+      else None
+  | _ => None
+  end.
+Definition lit_oct (s : list N) : option (list N * list N) :=
+  match s with
+  | c1 :: r =>
+      if c1 =? 48 then
+        match span is_octdigit r with
+        | ([], _) => None
+        | (ds, r') => Some (c1 :: ds, r')
+        end
+      else None
+  | _ => None
+  end.
+Definition lit_dec (s : list N) : option (list N * list N) :=
+  match span is_digit s with
+  | ([], _) => None
+  | (ds, r') => Some (ds, r')
+  end.
+(* (Hex / Octal / Decimal), in that order *)
 Definition lit_text (s : list N) : option (list N * list N) :=
-  match (match s with
-         | 48 :: 120 :: r => match span is_hexdigit r with
-                             | ([], _) => None
-                             | (ds, r') => Some (48 :: 120 :: ds, r')
-                             end
-         | _ => None
-         end) with
+  match lit_hex s with
   | Some x => Some x
-  | None =>
-    match (match s with
-           | 48 :: r => match span is_octdigit r with
-                        | ([], _) => None
-                        | (ds, r') => Some (48 :: ds, r')
-                        end
-           | _ => None
-           end) with
-    | Some x => Some x
-    | None => match span is_digit s with
-              | ([], _) => None
-              | (ds, r') => Some (ds, r')
-              end
-    end
+  | None => match lit_oct s with
+            | Some x => Some x
+            | None => lit_dec s
+            end
   end.
 
 (* strconv.ParseUint(text, 0, 64): None = error (syntax or range).
@@ -132,16 +145,17 @@ Definition lower (c : N) : N := if (65 <=? c) && (c <=? 90) then c + 32 else c.
 Definition parse_uint_go (text : list N) : option N :=
   match text with
   | [] => None
-  | 48 :: r =>
-      match r with
-      | p :: ((_ :: _) as ds) =>
-          if lower p =? 98 then digits_val 2 0 ds
-          else if lower p =? 111 then digits_val 8 0 ds
-          else if lower p =? 120 then digits_val 16 0 ds
-          else digits_val 8 0 r
-      | _ => digits_val 8 0 r
-      end
-  | _ => digits_val 10 0 text
+  | c :: r =>
+      if c =? 48 then
+        match r with
+        | p :: ((_ :: _) as ds) =>
+            if lower p =? 98 then digits_val 2 0 ds
+            else if lower p =? 111 then digits_val 8 0 ds
+            else if lower p =? 120 then digits_val 16 0 ds
+            else digits_val 8 0 r
+        | _ => digits_val 8 0 r
+        end
+      else digits_val 10 0 text
   end.
 
 (* UintLiteral: value and sticky flag *)
